@@ -31,17 +31,25 @@ fn gen_burst(rng: &mut Rng) -> Scenario {
         prods.push(ops);
     }
     // connections that say nothing for a while (or ever): the others must not wait for them
-    let silent = rng.below(3);
+    let silent = rng.below(6);
     for _ in 0..silent {
         let mut ops = vec![];
         if rng.chance(1, 2) {
             ops.push(POp::Sleep(*rng.pick(&[0u64, 50])));
         }
         ops.push(POp::Connect);
+        // some of them leave in the middle of a request line
+        let cut = rng.chance(1, 3);
+        if cut {
+            ops.push(POp::Partial);
+        }
         ops.push(POp::Sleep(*rng.pick(&[2_000u64, 700_000, 7_000_000])));
-        if rng.chance(1, 2) {
+        if !cut && rng.chance(1, 2) {
             ops.push(POp::Push(900_000 + next));
             next += 1;
+        }
+        if cut {
+            ops.push(POp::Close);
         }
         if rng.chance(1, 2) {
             ops.push(POp::Close);
@@ -438,6 +446,12 @@ fn run_kind(id: usize, rng: &mut Rng, pool_view: bool) -> String {
                             if conn.is_none() {
                                 conn = verif_rt::net::TcpStream::connect(addr).ok();
                                 sched::log(&format!("connected {}", pi));
+                            }
+                        }
+                        POp::Partial => {
+                            if let Some(c) = conn.as_ref() {
+                                let mut w = c;
+                                let _ = w.write(b"GET /r-cut HT");
                             }
                         }
                         POp::Close => {
